@@ -7,16 +7,53 @@ from harness.driver import call_impl, cz, cnat, czlist, cgrid, chist, clist, cre
 ID = 'C10'
 COQ_IMPORTS = 'From CPL Require Import Model.Base Model.Block Corr.C10.\nOpen Scope Z_scope.'
 NONTRIVIAL_RULE = ('exhaustive sweep b in 1..5 x m in 1..4 (1D) and (b1,b2) in 1..3^2 x (m1,m2) in 1..3^2 (2D) over the rule '
-                   'families script / reversal / rotation / rotation by t / swap table, T in 1..5, history 1..2, plus '
+                   'families script / reversal / rotation / rotation by t / swap table, T in 1..5, history 1..2, automaton '
+                   'dtypes int64 / int8 / uint8 / int32 / uint64 / float64 / bool (states above 2**53, NaN states), rules '
+                   'that rearrange their argument in place or scribble on it, 1-D / scalar 2D results, plus '
                    'non-divisible sizes and wrongly shaped results; non-trivial = the call returned and the rule was '
                    'called at least once (T >= 2); distinct = distinct case dicts')
 EXHAUSTIVE = {'quick': False, 'thorough': False}
-NOTES = ['every (b, m) with b<=5, m<=4 and every ((b1,b2),(m1,m2)) with entries <=3 appears with every rule family']
-ASSUMPTIONS = ['cell states and rule results are ints representable in the int64 automaton (store = identity)',
-               '2D block rules return a nested list / 2D array (NumPy broadcasting of (1|h, 1|w) shapes is modelled; '
-               '1-D or scalar results are not generated)',
+NOTES = ['every (b, m) with b<=5, m<=4 and every ((b1,b2),(m1,m2)) with entries <=3 appears with every rule family',
+         'evolve2d_block silently BROADCASTS a block-rule result that NumPy can broadcast into the block: a (1,w) / (h,1) / '
+         '(1,1) array, a 1-D list of length w or 1, a scalar. The model has NumPy\'s rule for nested lists (Model/Block.v '
+         'bcast); 1-D and scalar results are generated too and are compared through their 2-D equivalents ([l] and [[z]]), '
+         'which is NumPy\'s own broadcasting rule. The property text does not speak about such results: they are checked '
+         'model-against-code only, the property oracle skips the write-back clause for them.',
+         'evolve_block silently truncates / zero-fills a result of the wrong length (zip); modelled and compared.',
+         'a negative block size is accepted by evolve_block (4 % -2 == 0) and yields all-zero rows: outside the quantifier '
+         '(b >= 1), not generated.',
+         'NaN states (float64 automata, value-agnostic rules only) are transported as a sentinel integer.']
+ASSUMPTIONS = ['cell states and rule results are representable in the automaton\'s dtype (store = identity); float automata '
+               'carry integer-valued states (and NaN)',
+               '2D block rules return a nested list / 2D array / 1-D list / scalar; NumPy broadcasting is modelled',
                'any exception counts as rejection (the code raises a bare Exception); classes are not compared']
-TRUSTED = ['Python twins of the block-rule families (BlockRule1 / BlockRule2 in harness/props/c10.py)']
+TRUSTED = ['Python twins of the block-rule families (BlockRule1 / BlockRule2 in harness/props/c10.py)',
+           'the 1-D -> [l] and scalar -> [[z]] normalisation of 2D rule results in to_coq']
+
+SENT = -(2 ** 40) - 12345        # transports NaN
+NOTINT = SENT + 1                # transports a non-integer float (never produced by the unchanged code)
+DTYPES = {'int64': (-2 ** 63, 2 ** 63 - 1), 'int8': (-128, 127), 'uint8': (0, 255), 'int32': (-2 ** 31, 2 ** 31 - 1),
+          'uint64': (0, 2 ** 64 - 1), 'float64': (-2 ** 52, 2 ** 52), 'bool': (0, 1)}
+DT_POOL = ['int64', 'int64', 'int64', 'int8', 'uint8', 'int32', 'uint64', 'float64', 'bool']
+
+
+def enc(x):
+    """a cell state as the integer the Coq side sees"""
+    if isinstance(x, (bool, np.bool_)):
+        return int(x)
+    if isinstance(x, (float, np.floating)):
+        if x != x:
+            return SENT
+        return int(x) if float(x).is_integer() else NOTINT
+    return int(x)
+
+
+def dec(z, dtype):
+    return float('nan') if (z == SENT and dtype == 'float64') else z
+
+
+def _raw(x):
+    return x.item() if hasattr(x, 'item') else x
 
 
 # ------------------------------------------------------------------ twins of spec_brule / spec_brule2
@@ -29,12 +66,14 @@ def _rotl(k, l):
 
 
 class BlockRule1:
-    """spec_brule: logs (block contents, t); the call counter is the only state"""
+    """spec_brule: logs (block contents, t); the call counter is the only state.
+    spec['ret'] chooses the container the result is returned in (tuple / list / ndarray / generator)."""
     def __init__(self, spec):
         self.spec, self.i, self.log, self.rets = spec, 0, [], []
 
     def __call__(self, blk, t):
-        b = [int(x) for x in blk]
+        raw = list(blk)            # numpy scalars of the automaton's dtype
+        b = [enc(x) for x in raw]
         t = int(t)
         self.log.append([b, t])
         i, self.i = self.i, self.i + 1
@@ -43,61 +82,113 @@ class BlockRule1:
         if fam == 'script':
             r = list(sp['vs'][i]) if i < len(sp['vs']) else []
         elif fam == 'rev':
-            r = b[::-1]
+            r = raw[::-1]
         elif fam == 'rot':
-            r = _rotl(sp['k'], b)
+            r = _rotl(sp['k'], raw)
         elif fam == 'rott':
-            r = _rotl(t, b)
+            r = _rotl(t, raw)
         elif fam == 'swap':
-            r = b
+            r = raw
             for k, v in sp['tbl']:
                 if list(k) == b:
                     r = list(v)
                     break
         else:
             raise KeyError(fam)
-        self.rets.append(list(r))
+        self.rets.append([enc(x) for x in r])
+        ret = sp.get('ret', 'tuple')
+        if ret == 'list':
+            return list(r)
+        if ret == 'ndarray' and len(r) > 0:
+            return np.array(r)
+        if ret == 'gen':
+            return (x for x in r)
         return tuple(r)
 
 
+def norm2(r):
+    """the 2-D equivalent (NumPy broadcasting) of a block-rule result: scalar -> [[z]], 1-D -> [l]"""
+    if not isinstance(r, list):
+        return [[r]]
+    if len(r) > 0 and not isinstance(r[0], list):
+        return [list(r)]
+    return [list(row) for row in r]
+
+
 class BlockRule2:
-    """spec_brule2"""
+    """spec_brule2.  spec['mode']: 'new' (a fresh list / array), 'inplace' (the argument array is rearranged in place
+    and returned), 'scribble' (a fresh array is returned and the argument is overwritten afterwards)."""
     def __init__(self, spec):
         self.spec, self.i, self.log, self.rets = spec, 0, [], []
 
     def __call__(self, blk, t):
-        b = [[int(x) for x in row] for row in np.asarray(blk).tolist()]
+        raw = [list(row) for row in np.asarray(blk)]     # numpy scalars of the automaton's dtype
+        b = [[enc(x) for x in row] for row in raw]
         t = int(t)
         self.log.append([b, t])
         i, self.i = self.i, self.i + 1
         sp = self.spec
         fam = sp['fam']
         if fam == 'script':
-            r = [list(row) for row in sp['vs'][i]] if i < len(sp['vs']) else []
-        elif fam == 'rev':
-            r = [row[::-1] for row in b[::-1]]
+            r = sp['vs'][i] if i < len(sp['vs']) else []
+            self.rets.append(norm2(r))
+            return r if not isinstance(r, list) else [x if not isinstance(x, list) else list(x) for x in r]
+        if fam == 'rev':
+            r = [row[::-1] for row in raw[::-1]]
         elif fam == 'roll':
-            r = _rotl(sp['k1'], [_rotl(sp['k2'], row) for row in b])
+            r = _rotl(sp['k1'], [_rotl(sp['k2'], row) for row in raw])
         elif fam == 'rollt':
-            r = _rotl(t, [_rotl(t, row) for row in b])
+            r = _rotl(t, [_rotl(t, row) for row in raw])
         elif fam == 'swap':
-            r = b
+            r = raw
             for k, v in sp['tbl']:
                 if [list(x) for x in k] == b:
                     r = [list(x) for x in v]
                     break
         else:
             raise KeyError(fam)
-        self.rets.append([list(row) for row in r])
-        # alternate between a nested list and an ndarray where that is possible
-        if fam != 'script' and i % 2 == 0:
-            return np.array(r)
-        return r
+        self.rets.append([[enc(x) for x in row] for row in r])
+        mode = sp.get('mode', 'new')
+        if mode == 'inplace':
+            blk[...] = np.array(r)
+            return blk
+        if mode == 'scribble':
+            out = np.array(r)
+            blk[...] = sp.get('fill', 1)
+            return out
+        # alternate between a nested list and an ndarray
+        return np.array(r) if i % 2 == 0 else r
 
 
 # ------------------------------------------------------------------ generators
-def _distinct(rng, n):
-    return rng.sample(range(1, max(200, 3 * n)), n)
+def _pick(rng, dtype):
+    """one state of the dtype: mostly small, sometimes extreme / not representable as a double"""
+    lo, hi = DTYPES[dtype]
+    if dtype == 'bool':
+        return rng.randint(0, 1)
+    r = rng.random()
+    if r < 0.6 or dtype in ('int8', 'uint8'):
+        return rng.randint(max(lo, -100), min(hi, 250))
+    if r < 0.75:
+        return rng.choice([lo, hi, lo + 1, hi - 1])
+    if dtype in ('int64', 'uint64'):
+        v = 2 ** 53 + 1 + 2 * rng.randrange(2 ** 20)          # odd, above 2**53: not a double
+        return v if (dtype == 'uint64' or rng.random() < 0.5) else -v
+    return rng.randint(lo, hi)
+
+
+def _distinct(rng, n, dtype='int64'):
+    lo, hi = DTYPES[dtype]
+    if dtype == 'bool' or hi - lo + 1 < n:
+        return [_pick(rng, dtype) for _ in range(n)]
+    if hi - lo + 1 <= 4 * n:
+        return rng.sample(range(lo, hi + 1), n)
+    out = []
+    while len(out) < n:
+        v = _pick(rng, dtype)
+        if v not in out:
+            out.append(v)
+    return out
 
 
 def _perm(rng, l):
@@ -106,43 +197,59 @@ def _perm(rng, l):
     return l
 
 
-def _hist1(rng, H, N, alphabet=None):
-    rows = [[rng.randint(0, 9) for _ in range(N)] for _ in range(H - 1)]
-    last = [rng.randrange(alphabet) for _ in range(N)] if alphabet else _distinct(rng, N)
+def _old(rng, dtype):
+    return rng.randint(0, 1 if dtype == 'bool' else 9)
+
+
+def _hist1(rng, H, N, alphabet=None, dtype='int64'):
+    rows = [[_old(rng, dtype) for _ in range(N)] for _ in range(H - 1)]
+    last = [rng.randrange(alphabet) for _ in range(N)] if alphabet else _distinct(rng, N, dtype)
     return rows + [last]
 
 
-def _hist2(rng, H, R, C, alphabet=None):
-    gs = [[[rng.randint(0, 9) for _ in range(C)] for _ in range(R)] for _ in range(H - 1)]
+def _hist2(rng, H, R, C, alphabet=None, dtype='int64'):
+    gs = [[[_old(rng, dtype) for _ in range(C)] for _ in range(R)] for _ in range(H - 1)]
     if alphabet:
         last = [[rng.randrange(alphabet) for _ in range(C)] for _ in range(R)]
     else:
-        vals = _distinct(rng, R * C)
+        vals = _distinct(rng, R * C, dtype)
         last = [vals[i * C:(i + 1) * C] for i in range(R)]
     return gs + [last]
 
 
-def _rules1(rng, b, m, T, hist):
+def _sval(dtype, k):
+    """the k-th scripted result value, inside the dtype"""
+    lo, hi = DTYPES[dtype]
+    if hi - lo < 5000:
+        return lo + k % (hi - lo + 1)
+    return 1000 + k
+
+
+def _alphabet(dtype, cells):
+    return 2 if (dtype == 'bool' or cells >= 3) else 3
+
+
+def _rules1(rng, b, m, T, hist, dtype='int64'):
     """(kind, spec, replacement history or None) for every 1D family"""
     ncalls = m * max(T - 1, 0)
-    base = 1000
-    yield 'rev', {'fam': 'rev', 'perm': True}, None
-    yield 'rot', {'fam': 'rot', 'k': rng.randint(0, b + 1), 'perm': True}, None
-    yield 'rott', {'fam': 'rott', 'perm': True}, None
-    # script, exact lengths, distinct values
-    vs = [[base + i * 10 + j for j in range(b)] for i in range(ncalls)]
-    yield 'script', {'fam': 'script', 'vs': vs, 'perm': False}, None
+    ret = lambda: rng.choice(['tuple', 'tuple', 'list', 'ndarray', 'gen'])
+    yield 'rev', {'fam': 'rev', 'perm': True, 'ret': ret()}, None
+    yield 'rot', {'fam': 'rot', 'k': rng.randint(0, b + 1), 'perm': True, 'ret': ret()}, None
+    yield 'rott', {'fam': 'rott', 'perm': True, 'ret': ret()}, None
+    # script, exact lengths
+    vs = [[_sval(dtype, i * 10 + j) for j in range(b)] for i in range(ncalls)]
+    yield 'script', {'fam': 'script', 'vs': vs, 'perm': False, 'ret': ret()}, None
     # script with too short / too long / empty / missing results (zip truncation; zeros stay)
     vs2 = []
     for i in range(ncalls):
         L = rng.choice([b, b, max(b - 1, 0), b + 1, 0, rng.randint(0, b + 2)])
-        vs2.append([base + i * 10 + j for j in range(L)])
+        vs2.append([_sval(dtype, i * 10 + j) for j in range(L)])
     if ncalls and rng.random() < 0.4:
         vs2 = vs2[:rng.randint(0, ncalls - 1)]
-    yield 'script_ragged', {'fam': 'script', 'vs': vs2, 'perm': False}, None
+    yield 'script_ragged', {'fam': 'script', 'vs': vs2, 'perm': False, 'ret': rng.choice(['tuple', 'list', 'gen'])}, None
     # swap table over a small alphabet
-    A = 2 if b >= 3 else 3
-    h = _hist1(rng, len(hist), m * b, alphabet=A)
+    A = _alphabet(dtype, b)
+    h = _hist1(rng, len(hist), m * b, alphabet=A, dtype=dtype)
     keys = []
     for _ in range(rng.randint(1, 6)):
         k = [rng.randrange(A) for _ in range(b)]
@@ -153,29 +260,40 @@ def _rules1(rng, b, m, T, hist):
             keys.append(k)
     permuting = rng.random() < 0.7
     tbl = [[k, _perm(rng, k) if permuting else [rng.randrange(A) for _ in range(b)]] for k in keys]
-    yield 'swap', {'fam': 'swap', 'tbl': tbl, 'perm': permuting}, h
+    yield 'swap', {'fam': 'swap', 'tbl': tbl, 'perm': permuting, 'ret': ret()}, h
 
 
-def _shape(rng, h, w, base):
-    return [[base + a * w + c for c in range(w)] for a in range(h)]
+def _shape(h, w, dtype, base):
+    return [[_sval(dtype, base + a * w + c) for c in range(w)] for a in range(h)]
 
 
-def _rules2(rng, b1, b2, m1, m2, T, hist):
+def _rules2(rng, b1, b2, m1, m2, T, hist, dtype='int64'):
     ncalls = m1 * m2 * max(T - 1, 0)
-    yield 'rev', {'fam': 'rev', 'perm': True}, None
-    yield 'roll', {'fam': 'roll', 'k1': rng.randint(0, b1 + 1), 'k2': rng.randint(0, b2 + 1), 'perm': True}, None
-    yield 'rollt', {'fam': 'rollt', 'perm': True}, None
-    vs = [_shape(rng, b1, b2, 1000 + 20 * i) for i in range(ncalls)]
+    mode = lambda: rng.choice(['new', 'new', 'inplace', 'scribble'])
+    fill = _sval(dtype, 77)
+    yield 'rev', {'fam': 'rev', 'perm': True, 'mode': mode(), 'fill': fill}, None
+    yield 'roll', {'fam': 'roll', 'k1': rng.randint(0, b1 + 1), 'k2': rng.randint(0, b2 + 1), 'perm': True,
+                   'mode': mode(), 'fill': fill}, None
+    yield 'rollt', {'fam': 'rollt', 'perm': True, 'mode': mode(), 'fill': fill}, None
+    vs = [_shape(b1, b2, dtype, 20 * i) for i in range(ncalls)]
     yield 'script', {'fam': 'script', 'vs': vs, 'perm': False}, None
-    # broadcastable shapes
+    # shapes NumPy broadcasts: (1,w) (h,1) (1,1) nested, 1-D of length w or 1, scalar
     vs2 = []
     for i in range(ncalls):
-        h, w = rng.choice([(b1, b2), (1, b2), (b1, 1), (1, 1)])
-        vs2.append(_shape(rng, h, w, 1000 + 20 * i))
+        how = rng.choice(['full', 'row', 'col', 'one', 'flat', 'flat1', 'scalar'])
+        if how == 'flat':
+            vs2.append(_shape(1, b2, dtype, 20 * i)[0])
+        elif how == 'flat1':
+            vs2.append([_sval(dtype, 20 * i)])
+        elif how == 'scalar':
+            vs2.append(_sval(dtype, 20 * i))
+        else:
+            h, w = {'full': (b1, b2), 'row': (1, b2), 'col': (b1, 1), 'one': (1, 1)}[how]
+            vs2.append(_shape(h, w, dtype, 20 * i))
     yield 'script_bcast', {'fam': 'script', 'vs': vs2, 'perm': False}, None
     # swap table
-    A = 2 if b1 * b2 >= 3 else 3
-    hs = _hist2(rng, len(hist), m1 * b1, m2 * b2, alphabet=A)
+    A = _alphabet(dtype, b1 * b2)
+    hs = _hist2(rng, len(hist), m1 * b1, m2 * b2, alphabet=A, dtype=dtype)
     keys = []
     for _ in range(rng.randint(1, 6)):
         k = [[rng.randrange(A) for _ in range(b2)] for _ in range(b1)]
@@ -190,7 +308,11 @@ def _rules2(rng, b1, b2, m1, m2, T, hist):
         flat = [x for row in k for x in row]
         flat = _perm(rng, flat) if permuting else [rng.randrange(A) for _ in flat]
         tbl.append([k, [flat[a * b2:(a + 1) * b2] for a in range(b1)]])
-    yield 'swap', {'fam': 'swap', 'tbl': tbl, 'perm': permuting}, hs
+    yield 'swap', {'fam': 'swap', 'tbl': tbl, 'perm': permuting, 'mode': mode(), 'fill': rng.randrange(A)}, hs
+
+
+def _nanify(rng, flat_len):
+    return rng.sample(range(flat_len), min(flat_len, rng.choice([1, 1, 2])))
 
 
 def generate(rng, tier):
@@ -201,17 +323,42 @@ def generate(rng, tier):
             Ts = (1, 2, 3, 4, 5) if thorough else (1, 2, 3, 5)
             for T in Ts:
                 for H in ((1, 2) if thorough else (rng.choice([1, 1, 2]),)):
-                    hist = _hist1(rng, H, m * b)
-                    for kind, spec, h2 in _rules1(rng, b, m, T, hist):
-                        yield {'kind': '1d/' + kind, 'dim': 1, 'hist': h2 or hist, 'b': b, 'T': T, 'rule': spec}
-    # ---- 1D non-divisible sizes, block wider than the ring, b = 0, N = 0
+                    dt = rng.choice(DT_POOL)
+                    hist = _hist1(rng, H, m * b, dtype=dt)
+                    for kind, spec, h2 in _rules1(rng, b, m, T, hist, dt):
+                        yield {'kind': '1d/' + kind, 'dim': 1, 'dtype': dt, 'hist': h2 or hist, 'b': b, 'T': T, 'rule': spec}
+    # ---- 1D: 64-bit states that are not doubles; NaN states (value-agnostic rules)
+    for _ in range(40 if not thorough else 200):
+        b, m, T = rng.randint(1, 4), rng.randint(1, 4), rng.randint(2, 5)
+        dt = rng.choice(['int64', 'uint64'])
+        N = m * b
+        row = []
+        while len(row) < N:
+            v = 2 ** 53 + 1 + 2 * rng.randrange(2 ** 30)
+            v = v if (dt == 'uint64' or rng.random() < 0.5) else -v
+            if dt == 'uint64' and rng.random() < 0.4:
+                v = 2 ** 64 - 1 - rng.randrange(1000)
+            if v not in row:
+                row.append(v)
+        spec = rng.choice([{'fam': 'rev', 'perm': True}, {'fam': 'rot', 'k': 1, 'perm': True}, {'fam': 'rott', 'perm': True}])
+        yield {'kind': '1d/wide_ints', 'dim': 1, 'dtype': dt, 'hist': [row], 'b': b, 'T': T, 'rule': spec}
+    for _ in range(20 if not thorough else 100):
+        b, m, T = rng.randint(1, 4), rng.randint(1, 4), rng.randint(2, 5)
+        row = _distinct(rng, m * b, 'float64')
+        for i in _nanify(rng, m * b):
+            row[i] = SENT
+        spec = rng.choice([{'fam': 'rev', 'perm': True}, {'fam': 'rot', 'k': 1, 'perm': True}, {'fam': 'rott', 'perm': True}])
+        yield {'kind': '1d/nan', 'dim': 1, 'dtype': 'float64', 'hist': [row], 'b': b, 'T': T, 'rule': spec}
+    # ---- 1D non-divisible sizes, block wider than the ring, b = 0
     for N in range(1, 13):
         for b in range(2, 8):
             if N % b != 0:
-                yield {'kind': '1d/nondivisible', 'dim': 1, 'hist': _hist1(rng, rng.choice([1, 2]), N), 'b': b,
-                       'T': rng.randint(1, 4), 'rule': {'fam': 'rev', 'perm': True}}
+                dt = rng.choice(DT_POOL)
+                yield {'kind': '1d/nondivisible', 'dim': 1, 'dtype': dt, 'hist': _hist1(rng, rng.choice([1, 2]), N, dtype=dt),
+                       'b': b, 'T': rng.randint(1, 4), 'rule': {'fam': 'rev', 'perm': True}}
     for N in (1, 4):
-        yield {'kind': '1d/b0', 'dim': 1, 'hist': _hist1(rng, 1, N), 'b': 0, 'T': 3, 'rule': {'fam': 'rev', 'perm': True}}
+        yield {'kind': '1d/b0', 'dim': 1, 'dtype': 'int64', 'hist': _hist1(rng, 1, N), 'b': 0, 'T': 3,
+               'rule': {'fam': 'rev', 'perm': True}}
     # ---- 2D sweep
     for b1 in range(1, 4):
         for b2 in range(1, 4):
@@ -220,60 +367,107 @@ def generate(rng, tier):
                     Ts = (2, 3, 5) if thorough else (rng.choice([1, 2, 3, 3, 4, 5]),)
                     for T in Ts:
                         H = rng.choice([1, 1, 2])
-                        hist = _hist2(rng, H, m1 * b1, m2 * b2)
-                        for kind, spec, h2 in _rules2(rng, b1, b2, m1, m2, T, hist):
-                            yield {'kind': '2d/' + kind, 'dim': 2, 'hist': h2 or hist, 'b1': b1, 'b2': b2, 'T': T,
-                                   'rule': spec}
+                        dt = rng.choice(DT_POOL)
+                        hist = _hist2(rng, H, m1 * b1, m2 * b2, dtype=dt)
+                        for kind, spec, h2 in _rules2(rng, b1, b2, m1, m2, T, hist, dt):
+                            yield {'kind': '2d/' + kind, 'dim': 2, 'dtype': dt, 'hist': h2 or hist, 'b1': b1, 'b2': b2,
+                                   'T': T, 'rule': spec}
+    # ---- 2D: rules that rearrange the array they are handed and return it / overwrite it afterwards; long enough
+    #      for a step to be overwritten after it was recorded (T >= 4)
+    for _ in range(90 if not thorough else 400):
+        b1, b2, m1, m2 = rng.randint(1, 3), rng.randint(1, 3), rng.randint(1, 3), rng.randint(1, 3)
+        if b1 * b2 == 1:
+            b2 = 2
+        T, H = rng.randint(4, 6), rng.choice([1, 1, 2])
+        dt = rng.choice(DT_POOL)
+        hist = _hist2(rng, H, m1 * b1, m2 * b2, dtype=dt)
+        fam = rng.choice([{'fam': 'rev'}, {'fam': 'roll', 'k1': rng.randint(0, b1), 'k2': rng.randint(1, b2)}, {'fam': 'rollt'}])
+        md = rng.choice(['inplace', 'inplace', 'scribble'])
+        yield {'kind': '2d/' + md, 'dim': 2, 'dtype': dt, 'hist': hist, 'b1': b1, 'b2': b2, 'T': T,
+               'rule': dict(fam, perm=True, mode=md, fill=_sval(dt, 77))}
+    for _ in range(15 if not thorough else 60):
+        b1, b2, m1, m2, T = rng.randint(1, 3), rng.randint(1, 3), rng.randint(1, 3), rng.randint(1, 3), rng.randint(2, 5)
+        R, C = m1 * b1, m2 * b2
+        vals = _distinct(rng, R * C, 'float64')
+        for i in _nanify(rng, R * C):
+            vals[i] = SENT
+        yield {'kind': '2d/nan', 'dim': 2, 'dtype': 'float64', 'hist': [[vals[i * C:(i + 1) * C] for i in range(R)]],
+               'b1': b1, 'b2': b2, 'T': T, 'rule': {'fam': rng.choice(['rev', 'rollt']), 'perm': True,
+                                                     'mode': rng.choice(['new', 'inplace'])}}
     # ---- 2D wrongly shaped results (ValueError) somewhere in the run
     for _ in range(60 if not thorough else 300):
         b1, b2, m1, m2 = rng.randint(1, 3), rng.randint(1, 3), rng.randint(1, 3), rng.randint(1, 3)
         T = rng.randint(2, 4)
+        dt = rng.choice(DT_POOL)
         ncalls = m1 * m2 * (T - 1)
-        vs = [_shape(rng, b1, b2, 1000 + 20 * i) for i in range(ncalls)]
+        vs = [_shape(b1, b2, dt, 20 * i) for i in range(ncalls)]
         bad = rng.randrange(ncalls)
-        how = rng.choice(['tall', 'wide', 'ragged', 'short', 'emptyrows'])
+        how = rng.choice(['tall', 'wide', 'ragged', 'short', 'emptyrows', 'flatlong', 'flatempty'])
         if how == 'tall':
-            vs[bad] = _shape(rng, b1 + 1, b2, 7)
+            vs[bad] = _shape(b1 + 1, b2, dt, 7)
         elif how == 'wide':
-            vs[bad] = _shape(rng, b1, b2 + 1, 7)
+            vs[bad] = _shape(b1, b2 + 1, dt, 7)
         elif how == 'ragged':
-            vs[bad] = _shape(rng, b1, b2, 7) + [[1] * (b2 + 1)]
+            vs[bad] = _shape(b1, b2, dt, 7) + [[1] * (b2 + 1)]
         elif how == 'short':
             vs = vs[:bad]
+        elif how == 'flatlong':
+            vs[bad] = [_sval(dt, j) for j in range(b2 + 1)]
+        elif how == 'flatempty':
+            vs[bad] = []
         else:
             vs[bad] = [[] for _ in range(b1)]
-        yield {'kind': '2d/badshape_' + how, 'dim': 2, 'hist': _hist2(rng, 1, m1 * b1, m2 * b2), 'b1': b1, 'b2': b2,
-               'T': T, 'rule': {'fam': 'script', 'vs': vs, 'perm': False}}
+        yield {'kind': '2d/badshape_' + how, 'dim': 2, 'dtype': dt, 'hist': _hist2(rng, 1, m1 * b1, m2 * b2, dtype=dt),
+               'b1': b1, 'b2': b2, 'T': T, 'rule': {'fam': 'script', 'vs': vs, 'perm': False}}
     # ---- 2D non-divisible on the rows, on the columns, on both; block size 0
     for R in range(1, 7):
         for C in range(1, 7):
             for b1, b2 in ((2, 1), (1, 2), (2, 2), (3, 2), (2, 3), (4, 5)):
                 if R % b1 != 0 or C % b2 != 0:
                     if rng.random() < (1.0 if thorough else 0.45):
-                        yield {'kind': '2d/nondivisible', 'dim': 2, 'hist': _hist2(rng, 1, R, C), 'b1': b1, 'b2': b2,
-                               'T': rng.randint(1, 3), 'rule': {'fam': 'rev', 'perm': True}}
-    yield {'kind': '2d/b0', 'dim': 2, 'hist': _hist2(rng, 1, 2, 2), 'b1': 0, 'b2': 1, 'T': 2, 'rule': {'fam': 'rev', 'perm': True}}
-    yield {'kind': '2d/b0', 'dim': 2, 'hist': _hist2(rng, 1, 2, 2), 'b1': 2, 'b2': 0, 'T': 2, 'rule': {'fam': 'rev', 'perm': True}}
+                        dt = rng.choice(DT_POOL)
+                        yield {'kind': '2d/nondivisible', 'dim': 2, 'dtype': dt, 'hist': _hist2(rng, 1, R, C, dtype=dt),
+                               'b1': b1, 'b2': b2, 'T': rng.randint(1, 3), 'rule': {'fam': 'rev', 'perm': True}}
+    yield {'kind': '2d/b0', 'dim': 2, 'dtype': 'int64', 'hist': _hist2(rng, 1, 2, 2), 'b1': 0, 'b2': 1, 'T': 2,
+           'rule': {'fam': 'rev', 'perm': True}}
+    yield {'kind': '2d/b0', 'dim': 2, 'dtype': 'int64', 'hist': _hist2(rng, 1, 2, 2), 'b1': 2, 'b2': 0, 'T': 2,
+           'rule': {'fam': 'rev', 'perm': True}}
     # ---- random larger ones
     n_rand = 150 if not thorough else 2500
     for _ in range(n_rand):
+        dt = rng.choice(DT_POOL)
         if rng.random() < 0.5:
             b, m, T, H = rng.randint(1, 8), rng.randint(1, 8), rng.randint(1, 8), rng.randint(1, 3)
-            hist = _hist1(rng, H, m * b)
-            kind, spec, h2 = rng.choice(list(_rules1(rng, b, m, T, hist)))
-            yield {'kind': '1d/random/' + kind, 'dim': 1, 'hist': h2 or hist, 'b': b, 'T': T, 'rule': spec}
+            hist = _hist1(rng, H, m * b, dtype=dt)
+            kind, spec, h2 = rng.choice(list(_rules1(rng, b, m, T, hist, dt)))
+            yield {'kind': '1d/random/' + kind, 'dim': 1, 'dtype': dt, 'hist': h2 or hist, 'b': b, 'T': T, 'rule': spec}
         else:
             b1, b2, m1, m2 = rng.randint(1, 4), rng.randint(1, 4), rng.randint(1, 4), rng.randint(1, 4)
             T, H = rng.randint(1, 6), rng.randint(1, 2)
-            hist = _hist2(rng, H, m1 * b1, m2 * b2)
-            kind, spec, h2 = rng.choice(list(_rules2(rng, b1, b2, m1, m2, T, hist)))
-            yield {'kind': '2d/random/' + kind, 'dim': 2, 'hist': h2 or hist, 'b1': b1, 'b2': b2, 'T': T, 'rule': spec}
+            hist = _hist2(rng, H, m1 * b1, m2 * b2, dtype=dt)
+            kind, spec, h2 = rng.choice(list(_rules2(rng, b1, b2, m1, m2, T, hist, dt)))
+            yield {'kind': '2d/random/' + kind, 'dim': 2, 'dtype': dt, 'hist': h2 or hist, 'b1': b1, 'b2': b2, 'T': T,
+                   'rule': spec}
 
 
 # ------------------------------------------------------------------ runner
+def _np_dtype(name):
+    return {'bool': np.bool_}.get(name, getattr(np, name, None))
+
+
+def _encode_array(a):
+    if a.ndim == 1:
+        return [enc(x) for x in a.tolist()]
+    return [_encode_array(x) for x in a]
+
+
 def run_impl(c):
     import cellpylib as cpl
-    ca = np.array(c['hist'], dtype=np.int64)
+    dt = c.get('dtype', 'int64')
+
+    def build(x):
+        return [build(y) for y in x] if isinstance(x, list) else dec(x, dt)
+    ca = np.array(build(c['hist']), dtype=_np_dtype(dt))
     if c['dim'] == 1:
         rule = BlockRule1(c['rule'])
         r = call_impl(lambda: cpl.evolve_block(ca, block_size=c['b'], timesteps=c['T'], apply_rule=rule))
@@ -281,7 +475,8 @@ def run_impl(c):
         rule = BlockRule2(c['rule'])
         r = call_impl(lambda: cpl.evolve2d_block(ca, block_size=(c['b1'], c['b2']), timesteps=c['T'], apply_rule=rule))
     if r[0] == 'ok':
-        return ['ok', {'hist': np.asarray(r[1]).astype(np.int64).tolist(), 'log': rule.log, 'rets': rule.rets}]
+        out = np.asarray(r[1])
+        return ['ok', {'hist': _encode_array(out), 'log': rule.log, 'rets': rule.rets, 'dtype': str(out.dtype)}]
     return ['exc', r[1]]
 
 
@@ -302,7 +497,7 @@ def _rule1(sp):
 def _rule2(sp):
     f = sp['fam']
     if f == 'script':
-        return '(B2Script %s)' % chist(sp['vs'])
+        return '(B2Script %s)' % chist([norm2(v) for v in sp['vs']])
     if f == 'rev':
         return 'B2Rev'
     if f == 'roll':
